@@ -62,6 +62,7 @@ var (
 	famCtr  int
 	ctrMu   sync.Mutex
 	seamOn  bool
+	posOn   bool // positional tree: leaf seam AND node seam, nothing is hashed
 	seamTag uint64
 )
 
@@ -125,6 +126,9 @@ func buildTree(x *xmss.XMSS) *xproj.Tree {
 	h := int(s.Height)
 	skSeed := s.SK[4:36]
 	pubSeed := s.SK[68:100]
+	if posOn {
+		return xproj.NewPositional(h, s.HashFn, seamTag)
+	}
 	if seamOn {
 		mk := xproj.Build
 		if h >= 21 {
@@ -465,8 +469,12 @@ func tall(h int, hf xmss.HashFunction, seed [48]uint8, r *rand.Rand, tr *trace.B
 	n := 1 << uint(h)
 	sigs := 0
 	stops := []int{0, 253, 1<<16 - 3, 1<<16 + 250, n/4 - 2, n/2 - 2, n - 3}
-	if h >= 21 { // the far half of a very tall tree costs minutes of traversal: stop after the first quarter
+	far := h < 21 || posOn && h <= 24 // positional trees: nothing is hashed, a height-24 tree is walked to its end
+	if !far { // the far half of a very tall tree costs minutes of traversal: stop after the first quarter
 		stops = []int{0, 253, 1<<16 - 3, 1<<16 + 250, n/4 - 2}
+		if n/4 > 1<<24 { // heights 28, 30: the jump is bounded by 2^24 rounds
+			stops[4] = 1<<24 - 2
+		}
 	}
 	m := 0
 	for _, s := range stops {
@@ -481,7 +489,7 @@ func tall(h int, hf xmss.HashFunction, seed [48]uint8, r *rand.Rand, tr *trace.B
 			m++
 		}
 	}
-	if h >= 21 {
+	if !far {
 		k.setIndex(uint32(n))
 		k.setIndex(^uint32(0))
 		k.drop(true)
@@ -799,6 +807,7 @@ func main() {
 	reps := flag.Int("reps", 1, "random: sequences per hash function")
 	planFile := flag.String("plan", "", "plan: JSON list of behaviours (lists of {op,o,arg}) generated by TLC")
 	seam := flag.Bool("seam", false, "install the leaf seam (synthetic leaves)")
+	pos := flag.Bool("pos", false, "install the leaf seam and the node seam (positional tree: any height, nothing hashed)")
 	seed := flag.Int64("seed", 1, "VERIF_SEED")
 	out := flag.String("out", "", "trace file")
 	statsOut := flag.String("stats", "", "stats json")
@@ -811,6 +820,21 @@ func main() {
 		seamTag = uint64(r.Int63())
 		xmss.VerifLeafHook = func(hf xmss.HashFunction, leaf []uint8, idx uint32) bool {
 			copy(leaf, xproj.SeamLeaf(seamTag, idx))
+			return true
+		}
+	}
+	if *pos {
+		seamOn, posOn = true, true
+		seamTag = uint64(r.Int63())
+		xmss.VerifLeafHook = func(hf xmss.HashFunction, leaf []uint8, idx uint32) bool {
+			copy(leaf, xproj.PosNode(seamTag, 0, idx))
+			return true
+		}
+		xmss.VerifNodeHook = func(hf xmss.HashFunction, out []uint8, addr *[8]uint32) bool {
+			if addr[3] != 2 {
+				return false
+			}
+			copy(out, xproj.PosNode(seamTag, int(addr[5])+1, addr[6]))
 			return true
 		}
 	}
